@@ -210,6 +210,8 @@ def run(ctx):
     sub = sub if ctx.tier == "thorough" else ctx.rng.sample(sub, 10)
     runtime_clauses(ctx, o3, info, sub)
     derived_classes(ctx, o3)
+    import extra_oracles as _xo
+    _xo.module_instance_independence(ctx, "C02")
     ctx.notes["rule"] = ("family: every connection mode × weighted/unweighted × every specialisation branch × option settings (enumerated) + multi-path configurations "
                          "+ VERIF_SEED-dependent random configurations; each program certified for all inputs at batch 2; non-trivial = non-zero output")
     ctx.notes["programs"] = len(names)
